@@ -134,7 +134,7 @@ class FnSplicer:
     def splice(self):
         rf, it, spec = self.rf, self.it, self.spec
         known = {'result', 'requires', 'ensures', 'decreases', 'loops', 'proofs', 'closures', 'props', 'note',
-                 'unroll_fn_array', 'opens_invariants', 'no_unwind', 'external_body', 'returns', 'mode_attr', 'assumed', 'slice_matches', 'retain', 'take_while_count', 'proved_in', 'rev_find', 'filter_map_collect', 'map_sum', 'for_each', 'opaque_bools', 'drop_lets', 'windows_position', 'fwd_find_index'}
+                 'unroll_fn_array', 'opens_invariants', 'no_unwind', 'external_body', 'returns', 'mode_attr', 'assumed', 'slice_matches', 'retain', 'take_while_count', 'proved_in', 'rev_find', 'filter_map_collect', 'map_sum', 'for_each', 'opaque_bools', 'drop_lets', 'windows_position', 'fwd_find_index', 'collect_string'}
         bad = set(spec) - known
         if bad:
             raise ExtractError(f'unknown spec keys {bad}')
@@ -203,6 +203,8 @@ class FnSplicer:
             self._r11(spec['rev_find'])
         if spec.get('fwd_find_index'):
             self._r19()
+        if spec.get('collect_string'):
+            self._r20()
         if spec.get('filter_map_collect'):
             self._r12(dict(spec['filter_map_collect']))
         if spec.get('map_sum'):
@@ -718,6 +720,33 @@ class FnSplicer:
             ci += 1
         if found != 1:
             raise ExtractError(f'{self._where()}: R19 needs exactly one `x.iter().enumerate().find(|(_, c)| ..).map(|(i, _)| i)` (found {found})')
+
+    def _r20(self):
+        """R20: `let [mut] NAME: String = EXPR.iter().collect();` (EXPR a `[char]` place expression) =>
+        `let [mut] NAME: String = string_of_chars(&EXPR);`
+        -- `String: FromIterator<&char>` pushes every char of the slice in order; `string_of_chars` (trusted, body `e.iter().collect()`)
+        carries that as `s@ == e@`. EXPR is left untouched (its slicing bounds check stays an obligation)."""
+        rf, it = self.rf, self.it
+        ci = it.body[0] + 1; end = it.body[1]; found = 0
+        while ci < end:
+            if rf.ct(ci).text == 'let' and rf.ct(ci - 1).text in (';', '{', '}'):
+                n = ci + 2 if rf.ct(ci + 1).text == 'mut' else ci + 1
+                if rf.ct(n).kind == 'ident' and [rf.ct(n + j).text for j in (1, 2, 3)] == [':', 'String', '=']:
+                    k = n + 4
+                    while k < end and rf.ct(k).text != ';':
+                        k = rf.match(k) + 1 if rf.ct(k).text in ('(', '[', '{') else k + 1
+                    if k < end and [rf.ct(k - j).text for j in range(8, 0, -1)] == ['.', 'iter', '(', ')', '.', 'collect', '(', ')']:
+                        EXPR = rf.spaced(n + 4, k - 8).strip()
+                        before = rf.spaced(n + 4, k)
+                        after = f'string_of_chars(&{EXPR})'
+                        self.ed.replace(rf.ct(n + 4).start, rf.ct(k - 1).end, after)
+                        self.desugared.append({'rule': 'R20', 'before': ' '.join(before.split()), 'after': after})
+                        found += 1
+                        ci = k
+                        continue
+            ci += 1
+        if found != 1:
+            raise ExtractError(f'{self._where()}: R20 needs exactly one `let x: String = e.iter().collect();` (found {found})')
 
     def _r12(self, cfg):
         """R12: `E.iter().enumerate().filter_map(|(I, C)| BODY).collect()` (E a plain identifier naming a slice; the target a Vec) =>
